@@ -327,41 +327,98 @@ func runC19(p *an.Prog, r *an.Run, tier string) {
 	// never from duck-typing whatever io value a codec wraps.
 	bad = nil
 	nSrc := 0
+	// the fields that RemoteAddr() string methods return, anywhere in non-test code
+	addrFields := map[*types.Var]bool{}
+	isAddrMethod := func(fn *ssa.Function) bool {
+		return fn.Name() == "RemoteAddr" && fn.Signature.Recv() != nil && fn.Signature.Results().Len() == 1 && fn.Signature.Params().Len() == 0 &&
+			isBasic(fn.Signature.Results().At(0).Type(), types.String) && !p.IsTestFunc(fn) && !isTestDoublePkg(fn)
+	}
 	for _, fn := range p.Repo {
-		if p.IsTestFunc(fn) || fn.Pkg == nil || !strings.Contains(fn.Pkg.Pkg.Path(), "/jsonrpc2") {
+		if !isAddrMethod(fn) {
 			continue
 		}
-		var vals []ssa.Value
 		an.AllInstrs(fn, func(in ssa.Instruction) {
-			switch x := in.(type) {
-			case *ssa.Store:
-				if fv := an.FieldOf(x.Addr); fv != nil && fv.Name() == "remoteAddr" {
-					vals = append(vals, x.Val)
-				}
-			case *ssa.Return:
-				if fn.Name() == "RemoteAddr" && fn.Signature.Recv() != nil && len(x.Results) == 1 {
-					vals = append(vals, an.RetResults(x)[0])
-				}
-			}
-		})
-		for _, v := range vals {
-			nSrc++
-			for _, n := range p.Derives(0, v).Nodes {
-				c, ok := n.(*ssa.Call)
-				if !ok || !c.Common().IsInvoke() || c.Common().Method.Name() != "RemoteAddr" {
-					continue
-				}
-				if _, named := c.Common().Value.Type().(*types.Named); !named {
-					bad = append(bad, an.FuncName(fn)+" reports the address of whatever value it wraps ("+p.Pos(c.Pos())+", RemoteAddr() through an ad-hoc interface): a pipe or unix socket then yields \"pipe\" or a socket path, which connect would store as the host's address instead of refusing")
-					continue
-				}
-				for _, m := range p.Derives(0, c.Common().Value).Nodes {
-					if ta, ok := m.(*ssa.TypeAssert); ok {
-						bad = append(bad, an.FuncName(fn)+" reports the address of a connection type discovered by type assertion ("+p.Pos(ta.Pos())+")")
+			if ret, ok := in.(*ssa.Return); ok && len(ret.Results) == 1 {
+				for _, nd := range p.Derives(0, an.RetResults(ret)[0]).Nodes {
+					if fv := an.FieldOf(nd); fv != nil && isBasic(fv.Type(), types.String) {
+						addrFields[fv] = true
 					}
 				}
 			}
+		})
+	}
+	type src struct {
+		fn *ssa.Function
+		v  ssa.Value
+		at token.Pos
+	}
+	var srcs []src
+	for _, fn := range p.Repo {
+		if p.IsTestFunc(fn) || isTestDoublePkg(fn) {
+			continue
 		}
+		an.AllInstrs(fn, func(in ssa.Instruction) {
+			switch x := in.(type) {
+			case *ssa.Store:
+				if fv := an.FieldOf(x.Addr); fv != nil && addrFields[fv] {
+					srcs = append(srcs, src{fn, x.Val, x.Pos()})
+				}
+			case *ssa.Return:
+				if isAddrMethod(fn) && len(x.Results) == 1 {
+					srcs = append(srcs, src{fn, an.RetResults(x)[0], x.Pos()})
+				}
+			}
+		})
+	}
+	var judge func(fn *ssa.Function, v ssa.Value, at token.Pos, depth int)
+	judge = func(fn *ssa.Function, v ssa.Value, at token.Pos, depth int) {
+		for _, n := range p.Derives(2, v).Nodes {
+			switch x := n.(type) {
+			case *ssa.Parameter:
+				// a constructor parameter: judged at the constructor's call sites
+				if depth > 0 && x.Parent() == fn && isBasic(x.Type(), types.String) {
+					idx := -1
+					for i, prm := range fn.Params {
+						if prm == x {
+							idx = i
+						}
+					}
+					for _, site := range p.StaticSites(fn) {
+						if idx >= 0 && idx < len(site.Common().Args) && !p.IsTestFunc(site.Parent()) {
+							judge(site.Parent(), site.Common().Args[idx], site.Pos(), depth-1)
+						}
+					}
+				}
+			case *ssa.Call:
+				f := an.CallObj(x)
+				if f == nil {
+					continue
+				}
+				switch {
+				case x.Common().IsInvoke() && x.Common().Method.Name() == "RemoteAddr":
+					if _, named := x.Common().Value.Type().(*types.Named); !named {
+						bad = append(bad, an.FuncName(fn)+" reports the address of whatever value it wraps ("+p.Pos(x.Pos())+", RemoteAddr() through an ad-hoc interface): a pipe or unix socket then yields \"pipe\" or a socket path, which connect would store as the host's address instead of refusing")
+						continue
+					}
+					for _, m := range p.Derives(0, x.Common().Value).Nodes {
+						if ta, ok := m.(*ssa.TypeAssert); ok {
+							bad = append(bad, an.FuncName(fn)+" reports the address of a connection type discovered by type assertion ("+p.Pos(ta.Pos())+")")
+						}
+					}
+				case f.Name() == "RemoteAddr" || f.Name() == "String" || f.Name() == "Error":
+					// delegation to the wrapped connection / net.Addr.String()
+				case f.Pkg() != nil && (f.Pkg().Path() == "net/http" || f.Pkg().Path() == "net" || f.Pkg().Path() == "net/textproto" || f.Pkg().Path() == "strings" || f.Pkg().Path() == "fmt"):
+					// a reported address must be the peer's host:port as the network stack gives it; one assembled from
+					// request headers (X-Forwarded-For, ...) or re-formatted is not in that form (a bare IPv6 address is
+					// cut at its last colon by the pool's Hostname() step) and is under the remote party's control
+					bad = append(bad, an.FuncName(fn)+" reports an address obtained through "+an.ObjString(f)+" ("+p.Pos(x.Pos())+") rather than the connection's own host:port")
+				}
+			}
+		}
+	}
+	for _, sv := range srcs {
+		nSrc++
+		judge(sv.fn, sv.v, sv.at, 2)
 	}
 	r.Floor("remote-addr-sources", nSrc, 4)
 	r.Check(len(bad) == 0, "refuse-unknown", "jsonrpc2.remote-addr-sources", token.NoPos, "address-less transports report no address", "%s", strings.Join(dedup(bad), "; "))
@@ -752,6 +809,35 @@ func runC20(p *an.Prog, r *an.Run, tier string) {
 			okWait = true
 		}
 	})
+	// only the loop itself listens on stopCh: a receive anywhere else (a retry back-off in a helper, say) swallows the
+	// one stop signal, Stop returns and the loop keeps running, Wait never returns
+	for _, fn := range p.Repo {
+		if p.IsTestFunc(fn) || fn == serve || fn.Pkg == nil || !strings.HasSuffix(fn.Pkg.Pkg.Path(), "/agent") {
+			continue
+		}
+		top := fn
+		for top.Parent() != nil {
+			top = top.Parent()
+		}
+		an.AllInstrs(fn, func(in ssa.Instruction) {
+			isStopCh := func(v ssa.Value) bool {
+				fv := an.FieldOf(stripLoad(v))
+				return fv != nil && fv.Name() == "stopCh"
+			}
+			switch x := in.(type) {
+			case *ssa.UnOp:
+				if x.Op == token.ARROW && isStopCh(x.X) {
+					bad = append(bad, an.FuncName(fn)+" receives from stopCh at "+p.Pos(x.Pos())+": the stop signal meant for the keep-alive loop is consumed elsewhere")
+				}
+			case *ssa.Select:
+				for _, stt := range x.States {
+					if stt.Dir == types.RecvOnly && isStopCh(stt.Chan) && top != serve {
+						bad = append(bad, an.FuncName(fn)+" receives from stopCh in a select at "+p.Pos(x.Pos())+": the stop signal meant for the keep-alive loop is consumed elsewhere")
+					}
+				}
+			}
+		})
+	}
 	if !okStopSend || !okStopRecv {
 		bad = append(bad, "Stop does not signal the loop through stopCh (or the loop does not listen)")
 	}
@@ -802,22 +888,43 @@ func runC20(p *an.Prog, r *an.Run, tier string) {
 			if !ok || !isNamedType(tt.Elem(), "Time") {
 				continue
 			}
-			d := p.Derives(0, st.Chan)
-			fresh := false
-			for _, n := range d.Nodes {
-				if c, ok := n.(*ssa.Call); ok {
-					if f := an.CallObj(c); f != nil && f.Pkg() != nil && f.Pkg().Path() == "time" && (f.Name() == "Tick" || f.Name() == "NewTicker" || f.Name() == "After" || f.Name() == "NewTimer") {
-						if c.Parent() == serve && (c.Block() == sel.Block() || c.Block().Dominates(sel.Block())) {
+			// every source of the channel (through phis) is nil (never ticks) or a timer made in this run
+			var leaves []ssa.Value
+			seenL := map[ssa.Value]bool{}
+			var walkL func(v ssa.Value)
+			walkL = func(v ssa.Value) {
+				if seenL[v] {
+					return
+				}
+				seenL[v] = true
+				if ph, ok := v.(*ssa.Phi); ok {
+					for _, e := range ph.Edges {
+						walkL(e)
+					}
+					return
+				}
+				leaves = append(leaves, v)
+			}
+			walkL(st.Chan)
+			for _, lf := range leaves {
+				if c, ok := lf.(*ssa.Const); ok && c.IsNil() {
+					continue
+				}
+				d := p.Derives(0, lf)
+				fresh := false
+				for _, n := range d.Nodes {
+					if c, ok := n.(*ssa.Call); ok && c.Parent() == serve {
+						if f := an.CallObj(c); f != nil && f.Pkg() != nil && f.Pkg().Path() == "time" && (f.Name() == "Tick" || f.Name() == "NewTicker" || f.Name() == "After" || f.Name() == "NewTimer") {
 							fresh = true
 						}
 					}
-				}
-			}
-			if d.HasFieldNamed("Agent", "") || !fresh {
-				for _, n := range d.Nodes {
 					if fv := an.FieldOf(n); fv != nil {
 						if nn := structOfFieldAccess(n); nn != nil && nn.Obj().Name() == "Agent" {
-							bad = append(bad, "the loop waits on a timer kept in the agent (field "+fv.Name()+"), not on one made for this run: after Stop and a new Start it is the old, stopped one and no keep-alive is ever sent")
+							ts := fv.Type().String()
+							if strings.Contains(ts, "time.Ticker") || strings.Contains(ts, "time.Timer") || strings.Contains(ts, "chan") {
+								fresh = false
+								bad = append(bad, "the loop waits on a timer kept in the agent (field "+fv.Name()+"), not on one made for this run: after Stop and a new Start it is the old, stopped one and no keep-alive is ever sent")
+							}
 						}
 					}
 				}
@@ -827,6 +934,26 @@ func runC20(p *an.Prog, r *an.Run, tier string) {
 			}
 		}
 	})
+	// every turn of the loop sends the keep-alive: from the select, the next turn is not reachable without passing the
+	// UpdatePeers call (a "recently updated, skip this tick" shortcut stretches the gap beyond the configured interval,
+	// up to past the pool's expiry window)
+	for _, c := range an.Calls(serve, false) {
+		if f := an.CallObj(c); f == nil || f.Name() != "UpdatePeers" {
+			continue
+		}
+		if hdr := loopHeader(c.Block()); hdr != nil {
+			isU := func(x ssa.Instruction) bool { return x == c.(ssa.Instruction) }
+			atHdr := func(x ssa.Instruction) bool { return x.Block() == hdr }
+			for _, sc := range hdr.Succs {
+				if !an.ReachFrom([]*ssa.BasicBlock{sc}, nil)[hdr] {
+					continue
+				}
+				if in := pathFromBlock(serve, sc, isU, atHdr); in != nil {
+					bad = append(bad, "a turn of the keep-alive loop can come round again without sending the keep-alive (skip path back to "+p.Pos(in.Pos())+")")
+				}
+			}
+		}
+	}
 	// each keep-alive gets a context that is alive for that keep-alive: a deadline context created once outside the
 	// loop expires and every later keep-alive fails
 	for _, c := range an.Calls(serve, false) {
